@@ -46,7 +46,9 @@ class PEntailment(Inference):
 
         # falsified query: (not B|A)
         falsified_query = Conditional(Not(query.consequence), query.antecedence, None)
-        conditionals[0] = falsified_query
+        # store it under a key no conditional of the base uses (keys may start at 0)
+        query_key = max(conditionals.keys(), default=0) + 1
+        conditionals[query_key] = falsified_query
         extended_bb = BeliefBase(
             belief_base.signature, conditionals, f"{belief_base.name}_queried"
         )
